@@ -227,3 +227,6 @@ def run(cx, rep):
                            "%s calls JSON.stringify on (a record containing) the received value outside try/catch: a rejected bigint makes error building/printing throw" % fname, m2.loc(c))
     rep.ob("C12.4", "scan", True, sample={"error_helpers_scanned": n})
     rep.floor("C12.4", "error helpers scanned", n, 8)
+    # ---------------------------------------------------------------- C12.6
+    rep.rule("C12.6", "reportDecodeError() reads every constructor argument it read on the reviewed tree")
+    ts_common.field_matrix_rule(cx, rep, "C12.6", ['reportDecodeError'])
